@@ -21,6 +21,7 @@ EXPLANATION = (
     "expressions. GUARD: make_xy_term iff the interaction is 'XY', vdW otherwise; SLM-masked pairs are skipped only in XY; the interaction is built iff 'digital' is not the basis; C6/R^6 and C3(1-3cos^2)/R^3 shapes (powers). "
     "NOT decided: every matrix entry / numeric equality with the formula (runtime). GUARD (added): the per-run noise state (_bad_atoms, _doppler_detune) is reset by set_config exactly under the negation of the condition under which _update_noise redraws it (complementary guards at two sites)."
     " GUARD (round 3): every coefficient array built for _adapt_to_sampling_rate has the length of the sampling grid (self._duration), so the interaction switches at the same sample as the drive."
+    ' Round 5 (added): no `phase +=` accumulation of the channels of one basis (simultaneous drives add as complex amplitudes) -- KNOWN finding; generic GLOBAL net: no public function returns a module-level mutable table as it is (the EIGENSTATES defect).'
 )
 ASSUMPTIONS = ["coefficient formulas are matched on the symbolic normal form (pstatic/sym.py) up to permutation of factors; operator products (|x><y|) are matched in order", "the documented convention is read from docs/source/conventions.md"]
 
